@@ -164,6 +164,36 @@ def concretes(vlq):
     }
 
 
+def history(run, vlq):
+    """bounded stand-in for the history half: results are fresh values -- editing one never changes what a later
+    (or the same) call returns, and no two parts of one result are the same object"""
+    import copy
+    texts = ['AAAA,MAAM;;AACA;AACA;', ';;QAAA;', 'AAAA;AAAA;AAAA', 'AACA,0BAA0B', '', ';', 'gB', 'AAAA,AAAA']
+    n = 0
+    for fn, args in [('decode_mappings', t) for t in texts] + [('decode_vlqs', 'AACA'), ('decode_vlqs', '0B'),
+                                                                 ('encode_vlqs', (0, 0, 1, 0)), ('encode_mappings', [[(0, 0, 1, 0)], [], [(0, 0, 1, 0)]])]:
+        f = getattr(vlq, fn)
+        n += 1
+        first = f(copy.deepcopy(args))
+        want = copy.deepcopy(first)
+        why = None
+        if isinstance(first, list):
+            ids = [id(x) for x in first if isinstance(x, list)]
+            if len(ids) != len(set(ids)):
+                why = 'two lines of one result are the same list object'
+            for x in first:
+                if isinstance(x, list):
+                    x.append((0, 0, 1, 0))
+            first.append(['edited'])
+        again = f(copy.deepcopy(args))
+        if again != want:
+            why = 'after the caller edited an earlier result the same call returns %r instead of %r' % (again, want)
+        if why:
+            run.failed('rt.history', 'E4/bounded', '%s(%r)' % (fn, args), dict(function=fn, args=repr(args)), observed=why,
+                       required='every call returns the value of its arguments, whatever happened before', replayed=True)
+    run.bounded_check('rt.history', 'call, edit the result in place, call again: %d calls of the 4 list/string level functions' % n, n)
+
+
 def main(run, tier):
     vlq = importlib.import_module('calmjs.parse.vlq')
     import contracts.vlq as cv
@@ -171,6 +201,11 @@ def main(run, tier):
                        '(cvc5 on unknown); spec = Source Map V3 rule in spec/sourcemap_v3.py')
     run.floor = 45
     constants(run, vlq)
+    # purity: the postconditions below speak about one call; they carry over to every history of calls only if no call
+    # leaves state behind or hands out state shared with another call
+    from .c14 import frame_obligations
+    import contracts.frames as cf
+    frame_obligations(run, cf.C10, 'C10')
     try:
         cs, lemmas, env = cv.build(vlq)
     except ValueError as e:
@@ -188,6 +223,7 @@ def main(run, tier):
         if f is not None:
             run.failed('rt.' + q.split(':')[1], 'E4/bounded', f['args'], f, observed=f['observed'],
                        required=f['required'], replayed=True)
+    history(run, vlq)
     bit_laws_crosscheck(run, tier)
     run.assume(
         'Python int <-> SMT Int (exact); // and % by positive constants <-> SMT div/mod',
